@@ -6,7 +6,7 @@ use crate::common::*;
 use crate::net::{module_path, normalise, rec, Ev, NetProgram, NetResult};
 use crate::prng::Rng;
 use des::prelude::*;
-use des::time::{interval, sleep, sleep_until, timeout, MissedTickBehavior};
+use des::time::{interval, timeout, MissedTickBehavior, Sleep};
 use serde::{Deserialize, Serialize};
 use std::cell::RefCell;
 use std::collections::BTreeMap;
@@ -89,6 +89,36 @@ pub fn notify_task(m: usize, to: usize) {
             }
         }
     });
+}
+
+thread_local! {
+    /// fault: the timer futures of this run are created on helper threads (one fresh thread per timer) and handed to the
+    /// task that awaits them - timers are `Send`, and nothing ties their creation to the thread that runs the simulation
+    static ELSEWHERE: std::cell::Cell<bool> = const { std::cell::Cell::new(false) };
+    static MADE_ELSEWHERE: std::cell::Cell<u64> = const { std::cell::Cell::new(0) };
+}
+pub fn set_timers_elsewhere(v: bool) {
+    ELSEWHERE.with(|e| e.set(v));
+    MADE_ELSEWHERE.with(|e| e.set(0));
+}
+pub fn timers_made_elsewhere() -> u64 {
+    MADE_ELSEWHERE.with(|e| e.get())
+}
+fn sleep(d: Duration) -> Sleep {
+    if ELSEWHERE.with(|e| e.get()) {
+        MADE_ELSEWHERE.with(|e| e.set(e.get() + 1));
+        std::thread::scope(|s| s.spawn(move || des::time::sleep(d)).join()).expect("helper thread")
+    } else {
+        des::time::sleep(d)
+    }
+}
+fn sleep_until(t: SimTime) -> Sleep {
+    if ELSEWHERE.with(|e| e.get()) {
+        MADE_ELSEWHERE.with(|e| e.set(e.get() + 1));
+        std::thread::scope(|s| s.spawn(move || des::time::sleep_until(t)).join()).expect("helper thread")
+    } else {
+        des::time::sleep_until(t)
+    }
 }
 
 pub fn reset_run() {
